@@ -536,4 +536,48 @@ pub fn suite_errtable(ctx: &mut Ctx, seed: u64, n: usize, threads: usize) {
     }
     s.push_str("end\n");
     ctx.out.write_all(s.as_bytes()).unwrap();
+
+    // backlog: many failures outstanding at once (callers that collect errors and report them later), produced by
+    // real failing C calls on several threads and only then consumed by one: none may be lost, each has its own errno
+    let backlog = 3 * 4096 + 17;
+    let per = backlog / threads.max(1) + 1;
+    let stored: Arc<Mutex<Vec<(usize, i32, u64)>>> = Arc::new(Mutex::new(Vec::new()));
+    let mut handles = Vec::new();
+    for t in 0..threads {
+        let stored = Arc::clone(&stored);
+        handles.push(std::thread::spawn(move || {
+            let mut mine = Vec::new();
+            for k in 0..per {
+                let (id, want) = if k % 3 == 0 {
+                    // a real failing call: a bad descriptor is an invalid argument (EINVAL)
+                    (unsafe { capi::pathrs_inroot_resolve(-1, b"a\0".as_ptr() as *const _) }, libc::EINVAL as u64)
+                } else {
+                    let (class, errno, want) = classes[(k + t) % classes.len()];
+                    (verif::capi::store_error(class, errno), want)
+                };
+                mine.push((t, id, want));
+            }
+            stored.lock().unwrap().extend(mine);
+        }));
+    }
+    for h in handles {
+        h.join().unwrap();
+    }
+    let mut s = String::from("case errtable-backlog\nmeta suite=errtable\nop errtable_threads\n");
+    let all = stored.lock().unwrap().clone();
+    for (t, id, want) in &all {
+        s.push_str(&format!("h {t} store {want} {id}\n"));
+    }
+    for (_, id, want) in &all {
+        let e = unsafe { capi::pathrs_errorinfo(*id) };
+        if e.is_null() {
+            s.push_str(&format!("h c take {id} none {want}\n"));
+        } else {
+            let errno = unsafe { (*e).saved_errno };
+            unsafe { capi::pathrs_errorinfo_free(e) };
+            s.push_str(&format!("h c take {id} some {errno} {want}\n"));
+        }
+    }
+    s.push_str("end\n");
+    ctx.out.write_all(s.as_bytes()).unwrap();
 }
